@@ -192,3 +192,43 @@ declare void @f(%"007"*, %"7"*, %"-7"*, %7*)
 @b = global %"7" zeroinitializer
 @c = global %"00" zeroinitializer
 declare void @f(%"007"*, %"7"*, %"0"*)
+;;; ATOM types/named-i1-bool-literals
+%bool = type i1
+@a = global %bool true
+@b = global %bool false
+@c = global [2 x %bool] [%bool true, %bool false]
+define %bool @f(%bool %x) {
+  %y = xor %bool %x, true
+  %z = select %bool %y, %bool true, %bool false
+  ret %bool %z
+}
+;;; ATOM types/after-named-bool-plain-i1
+@a = global i1 true
+@b = global i1 false
+define i1 @f(i1 %x) {
+  %y = xor i1 %x, true
+  ret i1 %y
+}
+;;; ATOM types/alias-before-other-type
+%z = type i32
+%m = type { i8 }
+%a = type %z
+%k = type { %a, %m }
+@g = global %a 0
+@h = global %m zeroinitializer
+@i = global %k zeroinitializer
+;;; ATOM types/named-pointer-types
+%arrptr = type [4 x i32] addrspace(3)*
+%ip = type i32*
+%fnp = type void (i32)*
+@g = global i32 0
+@p = global %ip @g
+define i32 @f(%arrptr %p, %ip %q, %fnp %h) {
+  %e = getelementptr [4 x i32], %arrptr %p, i64 0, i64 1
+  %v = load i32, i32 addrspace(3)* %e
+  %w = load i32, %ip %q
+  %s = getelementptr i32, %ip %q, i64 1
+  store i32 %v, i32* %s
+  call void %h(i32 %w)
+  ret i32 %v
+}
